@@ -137,20 +137,22 @@ def AF.unpack (t : AF) (buffer : Bytes) : AF × R Unit :=
   | .ok _ => (t, .error .struct)
 
 /-- `MPEGAdaption.pack`.  Flags are only ever switched ON here (a flag left set with its part
-    absent is emitted as set); `length` is raised to the data length when too small, otherwise the
-    difference is stuffed with 0xFF. -/
+    absent is emitted as set): `if len(x) > 0: self.x_flag = True` is written
+    `x_flag := x_flag || (0 < len x)`.  `length` is raised to the data length when too small,
+    otherwise the difference is stuffed with 0xFF (`length - dataLen` is the truncated difference,
+    0 in the other branch). -/
 def AF.pack (s : AF) : AF × R Bytes :=
   if 0 < s.pcr.length ∧ s.pcr.length ≠ 6 then (s, .error .generic) else
-  let s := if 0 < s.pcr.length then { s with pcr_flag := true } else s
-  let s := if 0 < s.opcr.length then { s with opcr_flag := true } else s
-  let s := if 0 < s.splice_countdown then { s with splicing_flag := true } else s
+  let s := { s with pcr_flag := s.pcr_flag || decide (0 < s.pcr.length),
+                    opcr_flag := s.opcr_flag || decide (0 < s.opcr.length),
+                    splicing_flag := s.splicing_flag || decide (0 < s.splice_countdown) }
   match (if 0 < s.splice_countdown then structPack AF_pack_fmt0 [s.splice_countdown] else .ok []) with
   | .error e => (s, .error e)
   | .ok spl =>
     match (if 0 < s.private_data.length then structPack AF_pack_fmt1 [s.private_data.length] else .ok []) with
     | .error e => (s, .error e)
     | .ok tl =>
-      let s := if 0 < s.private_data.length then { s with transpart_flag := true } else s
+      let s := { s with transpart_flag := s.transpart_flag || decide (0 < s.private_data.length) }
       let sx : AF × R Bytes :=
         match s.adaption_extension with
         | none => (s, .ok [])
@@ -161,15 +163,14 @@ def AF.pack (s : AF) : AF × R Bytes :=
         let s := sx.1
         let dataLen := s.pcr.length + s.opcr.length + tl.length + s.private_data.length + eb.length +
           spl.length + 1
-        let stuff := if s.length > dataLen then s.length - dataLen else 0
-        let s := if s.length > dataLen then s else { s with length := dataLen }
+        let s := { s with length := if s.length > dataLen then s.length else dataLen }
         let flags := s.discontinutiy.toNat * 128 + s.random_access.toNat * 64 + s.es_priority.toNat * 32 +
           s.pcr_flag.toNat * 16 + s.opcr_flag.toNat * 8 + s.splicing_flag.toNat * 4 +
           s.transpart_flag.toNat * 2 + s.extension_flag.toNat
         match structPack AF_pack_fmt2 [s.length, flags] with
         | .error e => (s, .error e)
         | .ok h => (s, .ok (h ++ s.pcr ++ s.opcr ++ spl ++ tl ++ s.private_data ++ eb ++
-                            List.replicate stuff 0xFF))
+                            List.replicate (s.length - dataLen) 0xFF))
 
 /-- `MPEGAdaption.__eq__` (every attribute of `__dict__`, the extension through its own `__eq__`) -/
 def AF.eq (a b : AF) : Bool := a == b
